@@ -13,7 +13,9 @@ func UnmarshalBatchedTokenResponses(data []byte) ([][]byte, error) {
 	s := cryptobyte.String(data)
 
 	l, offset := quicwire.ConsumeVarint(data)
-	s.Skip(offset)
+	if offset < 0 || !s.Skip(offset) || l > uint64(len(s)) {
+		return nil, fmt.Errorf("invalid Token encoding")
+	}
 
 	token_responses_data := data[offset:(offset + int(l))]
 
